@@ -6,7 +6,7 @@ From Coq Require Floats.PrimFloat.
 From OV.base Require Import Num.
 From OV.gen Require Import Gen_EquationSolver Gen_EquationSolverSubspace.
 From OV.model Require Import M_C06_Vec M_C06_CG M_C06_Treigen.
-From OV.proofs Require Import L_C06_Vec L_C06_CG L_C06_CGpc L_C06_Dogleg L_C06_Treigen L_C06_TreigenFull.
+From OV.proofs Require Import L_C06_Vec L_C06_CG L_C06_CGpc L_C06_CGss L_C06_Dogleg L_C06_Treigen L_C06_TreigenFull.
 Import ListNotations.
 Local Open Scope R_scope.
 
@@ -83,13 +83,61 @@ Theorem C06_cg_gould_recurrences : forall n (Hf Pf Mf : list R -> list R) D cg_t
   forall f, @solve_trust_region_minimization R NumR Hf Pf true D cg_tol cg_ratio (k + f) x g =
             @cg_loop R NumR Hf Pf true D f k tol2 (rneg (Pf g)) (s_z s) (s_r s) (s_d s) (s_rPr s) (s_zz s) (s_zd s) (s_dd s).
 Proof. exact cg_gould_recurrences. Qed.
-(* formerly NOT PROVED (a) -- radius clause in the preconditioned inner product -- is closed by the two theorems above.
-   NOT PROVED: (b) the Cauchy clause when the solver returns before iterating (|g|^2 < cgTolSquared, 0 iterations, zero step tagged
-   'interior'): there the zero step does NOT beat the Cauchy step unless g = 0 -- excluded by `cg_iters res <> 0`.
-   (c) EquationSolverSubspace.trust_region_cg / ModelProblem: modelled (model/M_C06_CG.v trust_region_cg) and tied by the
-   correspondence, but only its tau kernel has a theorem (C06_tau_on_boundary_subspace).
-   (d) the theorems are over exact reals: in binary64 CG loses conjugacy, so the recurrences drift from the M-inner products
-   over many passes; the harness measures that drift on the implementation (stream `gould`) against a stated tolerance. *)
+(* the zero-iteration return (|g|^2 < cgTolSquared: the loop is not entered, the zero step is returned tagged 'interior' with 0
+   iterations -- and ONLY then are 0 iterations reported).  The zero step does NOT beat the Cauchy step unless g = 0; what holds instead,
+   for every step t*d0 along the Cauchy direction d0 = -P g inside the Euclidean ball of radius D:
+     m(0) - m(t d0)  =  t (g.Pg) - t^2/2 (d0.H d0)  <=  D sqrt(cgTolSquared) - t^2/2 (d0.H d0),
+   i.e. the decrease forgone is below D*sqrt(cgTolSquared) when the curvature along d0 is >= 0 and exceeds it only by the
+   negative-curvature term.  (No positivity of the preconditioner is needed; H symmetric linear.) *)
+Theorem C06_cg_zero_iteration_return : forall n (Hf Pf : list R -> list R) pcip D cg_tol cg_ratio (x g : list R),
+  (forall v, len n v -> len n (Hf v)) -> (forall v, len n v -> len n (Pf v)) ->
+  (forall a k b, len n a -> len n b -> Hf (raxpy a k b) = raxpy (Hf a) k (Hf b)) ->
+  (forall a b, len n a -> len n b -> a ⋅ Hf b = Hf a ⋅ b) ->
+  len n x -> len n g ->
+  forall max_cg_iters_minus_1,
+  let tol2 := @cg_tol_squared R NumR cg_tol cg_ratio g in
+  let d0 := rneg (Pf g) in
+  let res := @solve_trust_region_minimization R NumR Hf Pf pcip D cg_tol cg_ratio (S max_cg_iters_minus_1) x g in
+  (cg_iters res = 0%nat <-> g ⋅ g < tol2) /\
+  (g ⋅ g < tol2 ->
+     cg_z res = rzero x /\ cg_tag res = Interior /\ @qmodel R NumR Hf g (cg_z res) = 0 /\
+     forall t, 0 <= D -> 0 <= t -> t * t * (d0 ⋅ d0) <= D * D ->
+       @qmodel R NumR Hf g (cg_z res) - @qmodel R NumR Hf g (rscale t d0) <= D * sqrt tol2 - / 2 * (t * t) * (d0 ⋅ Hf d0)).
+Proof. exact cg_zero_iteration. Qed.
+(* EquationSolverSubspace.trust_region_cg (model/M_C06_CG.v trust_region_cg, which is handed Pr and HPr by its caller), called with
+   Pr = precond r and HPr = hess_vec Pr, for an ARBITRARY symmetric linear Hessian oracle and any positive preconditioner oracle: the step
+   lies inside the Euclidean trust region and on its boundary when tagged boundary / negative curvature; the model value never increases
+   and, when at least one iteration is reported, is <= that of every step along the Cauchy direction inside the region; 'interior' =>
+   Newton residual below the CG tolerance; with 0 iterations the clause of the theorem above holds. *)
+Theorem C06_subspace_cg_step_properties : forall n (Hf Pf : list R -> list R) D cg_tol cg_ratio (x g : list R),
+  (forall v, len n v -> len n (Hf v)) -> (forall v, len n v -> len n (Pf v)) ->
+  (forall a k b, len n a -> len n b -> Hf (raxpy a k b) = raxpy (Hf a) k (Hf b)) ->
+  (forall a b, len n a -> len n b -> a ⋅ Hf b = Hf a ⋅ b) ->
+  (forall v, len n v -> 0 < v ⋅ v -> 0 < v ⋅ Pf v) ->
+  cg_tol <> 0 -> len n x -> len n g ->
+  forall max_cg_iters_minus_1,
+  let tol2 := @cg_tol_squared R NumR cg_tol cg_ratio g in
+  let d0 := rneg (Pf g) in
+  let res := @trust_region_cg R NumR Hf Pf D cg_tol cg_ratio (S max_cg_iters_minus_1) x g (Pf g) (Hf (Pf g)) in
+  let z := fst (fst res) in let tag := snd (fst res) in let iters := snd res in
+  len n z /\
+  @qmodel R NumR Hf g z <= 0 /\
+  (iters <> 0%nat -> forall t, 0 <= t -> t * t * (d0 ⋅ d0) <= D * D ->
+     @qmodel R NumR Hf g z <= @qmodel R NumR Hf g (rscale t d0)) /\
+  (iters = 0%nat -> 0 <= D -> forall t, 0 <= t -> t * t * (d0 ⋅ d0) <= D * D ->
+     @qmodel R NumR Hf g z - @qmodel R NumR Hf g (rscale t d0) <= D * sqrt tol2 - / 2 * (t * t) * (d0 ⋅ Hf d0)) /\
+  (tag = Interior -> radd g (Hf z) ⋅ radd g (Hf z) < tol2) /\
+  z ⋅ z <= D * D /\ (is_on_boundary tag = true -> z ⋅ z = D * D).
+Proof. exact ss_solve_correct. Qed.
+(* formerly NOT PROVED (a) -- radius clause in the preconditioned inner product -- is closed by C06_cg_radius_preconditioned / C06_cg_gould_recurrences;
+   (b) -- the Cauchy clause when the solver returns before iterating -- is closed by C06_cg_zero_iteration_return: the clause as the property
+   words it is false there (the zero step does not beat the Cauchy step unless g = 0) and the theorem states the gap that holds;
+   (c) -- EquationSolverSubspace.trust_region_cg -- is closed by C06_subspace_cg_step_properties (under the contract Pr = precond r,
+   HPr = hess_vec Pr that its only caller establishes; the harness passes exactly these).
+   NOT PROVED: (d) the theorems are over exact reals: in binary64 CG loses conjugacy, so the recurrences drift from the M-inner products
+   over many passes; the harness measures that drift on the implementation (stream `gould`) against a stated tolerance;
+   (e) the zero-iteration gap in the preconditioned inner product (region t^2 g.Pg <= D^2): the bound there needs a norm of the
+   preconditioner; only the Euclidean-region statement is proved. *)
 
 (* dogleg_step: on the path origin -> Cauchy point -> quasi-Newton point, inside the radius in the mat_mul norm *)
 Theorem C06_dogleg : forall n (M : list R -> list R) D,
@@ -140,27 +188,44 @@ Theorem C06_treigen_hard_case_near_optimal : forall n (A : list R -> list R) (b 
   forall s, len n s -> s ⋅ s <= Delta * Delta ->
   energyR A b (raxpy p tau z) <= energyR A b s + 2 * Rabs tau * eps * Delta.
 Proof. exact hard_case_near_optimal_full. Qed.
-(* zero model Hessian: the secular branch of the binary64 model divides by sig+lam = 0 and returns NaN (finding F2b);
-   fencs encodes NaN as [0; 7777] *)
-Theorem C06_treigen_zero_hessian_nan_binary64 :
-  let res := @treigen_solve PrimFloat.float NumF 50 [F 0 0] [[F 1 0]] [F 1 0] (F 2 0) in
-  (match fst res with TSecular _ => true | _ => false end = true) /\ fencs (snd res) = [0; 7777]%Z.
-Proof. exact treigen_zero_hessian_nan_binary64. Qed.
-(* the uncapped secular `while` of treigen.solve does not terminate on this input in binary64 (400 passes of the model's
-   fuelled loop are not enough; the harness confirms a fixed point of lam with |bError| > 1e-9 on the implementation) -- finding F2c *)
-Theorem C06_treigen_secular_stalls_binary64 :
-  fst (@treigen_solve PrimFloat.float NumF 400 stall_sig [[F 1 0; F 0 0]; [F 0 0; F 1 0]] stall_b stall_Delta) = TOutOfFuel.
-Proof. exact treigen_secular_stalls_binary64. Qed.
-(* treigen.solve returns a global minimiser: ONE theorem about the model (model/M_C06_Treigen.v at T := R) from the contract of
-   numpy's eigh -- sig ascending, V (a list of rows, square) orthogonal, A = V diag(sig) V^T; `transpose_n` is PROVED to be the
-   transpose (x.(V y) = (V^T x).y), so V^T V = I, V V^T = I and the decomposition are stated as operator identities.
-   For every fuel (cap on the passes of the secular `while`), whatever branch is taken:
+(* zero model Hessian (finding F2b, fixed by repo commit 4d37146): the binary64 model takes the early return `sigScale == 0` and yields
+   -(Delta/|b|) b  (A = 0, b = (3,-4), Delta = 10 gives (-6, 8) exactly), and the zero step when b = 0 as well.
+   [replaces C06_treigen_zero_hessian_nan_binary64, which recorded the NaN the code returned before the fix] *)
+Theorem C06_treigen_zero_hessian_binary64 :
+  let I2 := [[F 1 0; F 0 0]; [F 0 0; F 1 0]] in
+  let res := @treigen_solve PrimFloat.float NumF 100 [F 0 0; F 0 0] I2 [F 3 0; F (-4) 0] (F 10 0) in
+  let res0 := @treigen_solve PrimFloat.float NumF 100 [F 0 0; F 0 0] I2 [F 0 0; F 0 0] (F 10 0) in
+  fst res = TZero /\ fencs (snd res) = fencs [F (-6) 0; F 8 0] /\ fst res0 = TZero /\ fencs (snd res0) = fencs [F 0 0; F 0 0].
+Proof. exact treigen_zero_hessian_binary64. Qed.
+(* the secular iteration stalls on this input in binary64 (finding F2c, fixed by repo commit 545a5c4): after ONE update the Newton correction
+   is below the resolution of lam with |bError| > 1e-9.  The old uncapped `while` never ended there; the repaired loop leaves through
+   `if lamNew == lam: break` -- for the source's cap of 100 and for any other cap >= 2 -- and through the end of the range for cap = 1.
+   [replaces C06_treigen_secular_stalls_binary64, which recorded the non-termination of the old loop] *)
+Theorem C06_treigen_secular_stall_exit_binary64 :
+  fst (@treigen_solve PrimFloat.float NumF 100 stall_sig [[F 1 0; F 0 0]; [F 0 0; F 1 0]] stall_b stall_Delta) = TStalled 1 /\
+  fst (@treigen_solve PrimFloat.float NumF 400 stall_sig [[F 1 0; F 0 0]; [F 0 0; F 1 0]] stall_b stall_Delta) = TStalled 1 /\
+  fst (@treigen_solve PrimFloat.float NumF 2 stall_sig [[F 1 0; F 0 0]; [F 0 0; F 1 0]] stall_b stall_Delta) = TStalled 1.
+Proof. exact treigen_secular_stall_exit_binary64. Qed.
+Theorem C06_treigen_secular_cap_exit_binary64 :
+  fst (@treigen_solve PrimFloat.float NumF 1 stall_sig [[F 1 0; F 0 0]; [F 0 0; F 1 0]] stall_b stall_Delta) = TCapped 1.
+Proof. exact treigen_secular_cap_exit_binary64. Qed.
+(* treigen.solve returns a global minimiser: ONE theorem about the model (model/M_C06_Treigen.v at T := R) of the code AS REPAIRED
+   (repo commits 5a997d7, 4d37146, 545a5c4) from the contract of numpy's eigh -- sig ascending, V (a list of rows, square) orthogonal,
+   A = V diag(sig) V^T; `transpose_n` is PROVED to be the transpose (x.(V y) = (V^T x).y), so V^T V = I, V V^T = I and the decomposition
+   are stated as operator identities.  For EVERY matrix (the guard A <> 0 of the earlier version is gone), every Delta > 0 and every cap
+   of the secular `for` (100 in the source; the loop terminates by construction, there is no out-of-fuel case):
    interior: |p| < Delta and p minimises the model over the ball of radius Delta;
    hard case: |p| = Delta and p minimises it up to 4 eps Delta^2, eps = 1e-12*mean|sig| (the code's shift of the lowest eigenvalue);
-   secular: | |p| - Delta | <= 1e-9 Delta and p minimises the model over the ball of its own radius |p|
-            (the Newton iterates on the secular equation stay on the side |p(lam)| >= Delta -- convexity of 1/(1+hy)^2 -- so the
-            returned multiplier is >= max(0, -sig_0) and More'-Sorensen applies);
-   out of fuel: nothing is claimed.  Guards: Delta > 0 and A <> 0 (mean|sig| > 0; A = 0 is the open finding F2b). *)
+   zero Hessian (mean|sig| = 0): |p| <= Delta, = Delta unless b = 0, and p minimises the model over the ball (exactly);
+   secular, left through the tolerance test after j <= cap updates: | |p| - Delta | <= 1e-9 Delta and p minimises the model over the ball of
+            its own radius |p| (the Newton iterates on the secular equation stay on the side |p(lam)| >= Delta -- convexity of
+            1/(1+hy)^2 -- so the returned multiplier is >= max(0, -sig_0) and More'-Sorensen applies);
+   secular, left through the end of the range with |bError| > 1e-9 (capped): the step is OUTSIDE the trust region, |p| > (1+1e-9) Delta, it
+            still minimises the model over the ball of its own radius |p| (hence beats every point of the trust region), exactly `cap`
+            updates were made, and this exit is possible only while  cap * eps * 1e-9 <= |b|/Delta - eps  (each update raises lam by at
+            least eps*1e-9 and sig_0 + lam never exceeds |b|/Delta);
+   secular, left through `lamNew == lam` (stalled): NOT REACHABLE over R (the Newton correction is > 0 while bError > 1e-9); it is a
+            binary64-only exit -- witness above; what the harness checks on such runs is stated in tools/props/c06.py. *)
 Theorem C06_treigen_global_minimiser : forall k (A : list R -> list R) (sig : list R) (V : list (list R)) (b : list R),
   let n := S k in let Vt := @transpose_n R NumR n V in
   len n sig -> (forall row, In row V -> len n row) -> length V = n -> len n b ->
@@ -168,26 +233,79 @@ Theorem C06_treigen_global_minimiser : forall k (A : list R -> list R) (sig : li
   (forall x, len n x -> @matvec R NumR V (@matvec R NumR Vt x) = x) ->
   (forall x, len n x -> A x = @matvec R NumR V (@vmul R NumR sig (@matvec R NumR Vt x))) ->
   (forall x, In x sig -> hd 0 sig <= x) ->
-  forall Delta, 0 < Delta -> 0 < @vmean_abs R NumR sig ->
-  forall fuel,
-  match @treigen_solve R NumR fuel sig V b Delta with
+  forall Delta, 0 < Delta ->
+  forall cap, let eps := 1 / 1000000000000 * @vmean_abs R NumR sig in
+  match @treigen_solve R NumR cap sig V b Delta with
   | (TInterior, p) => len n p /\ p ⋅ p < Delta * Delta /\
                       forall s, len n s -> s ⋅ s <= Delta * Delta -> energyR A b p <= energyR A b s
   | (THard, p) => len n p /\ p ⋅ p = Delta * Delta /\
                   forall s, len n s -> s ⋅ s <= Delta * Delta ->
-                  energyR A b p <= energyR A b s + 4 * (1 / 1000000000000 * @vmean_abs R NumR sig) * (Delta * Delta)
-  | (TSecular _, p) => len n p /\ Rabs (sqrt (p ⋅ p) - Delta) <= 1 / 1000000000 * Delta /\
+                  energyR A b p <= energyR A b s + 4 * eps * (Delta * Delta)
+  | (TZero, p) => len n p /\ p ⋅ p <= Delta * Delta /\ (0 < b ⋅ b -> p ⋅ p = Delta * Delta) /\
+                  forall s, len n s -> s ⋅ s <= Delta * Delta -> energyR A b p <= energyR A b s
+  | (TSecular j, p) => len n p /\ Rabs (sqrt (p ⋅ p) - Delta) <= 1 / 1000000000 * Delta /\ (j <= cap)%nat /\
                        forall s, len n s -> s ⋅ s <= p ⋅ p -> energyR A b p <= energyR A b s
-  | (TOutOfFuel, _) => True
+  | (TCapped j, p) => len n p /\ (1 + 1 / 1000000000) * Delta < sqrt (p ⋅ p) /\ j = cap /\
+                      INR cap * (eps * (1 / 1000000000)) <= sqrt (b ⋅ b) / Delta - eps /\
+                      forall s, len n s -> s ⋅ s <= p ⋅ p -> energyR A b p <= energyR A b s
+  | (TStalled _, _) => False
   end.
 Proof. exact treigen_minimiser. Qed.
-(* formerly NOT PROVED ("treigen.solve returns a global minimiser as one theorem from the eigh contract") is closed by the theorem above.
-   NOT PROVED: termination of the uncapped secular `while` (over R the Newton iterates increase monotonically and stay below the
-   root, convergence itself is not proved; in binary64 the loop can stall -- finding F2c, witness above); the eigh contract itself
-   (numpy is an oracle: the harness measures V^T V = I, A = V diag(sig) V^T and the ordering on the logged output of every run);
-   binary64 rounding (the theorem is over R; the harness compares per branch within stated tolerances).  Two defects remain open (F2b, F2c). *)
-(* supporting the patches PROPOSED (not applied) for the two open findings:
-   F2b -- the case A = 0 excluded above: the model is then s.b and -Delta*b/|b| (what the proposed early return yields) minimises it over the ball;
+(* the secular Newton iteration by itself, in eigen-coordinates (w_i = (V^T b)_i^2 >= 0, m a lower bound of the eigenvalues), for EVERY
+   tolerance tol >= 0 and every cap, from any start lam0 with m + lam0 > 0 on the side |p(lam0)| >= Delta (N lam = |p(lam)|^2):
+   the multiplier does not decrease, the final state is still on that side; the loop leaves through its tolerance test
+   (|p| - Delta <= tol Delta) or through the end of the range -- never through `lamNew == lam` -- and leaving through the end of the range
+   with the test still failing is possible only while  cap (m+lam0) tol <= sqrt(sum w)/Delta - (m+lam0). *)
+Theorem C06_secular_newton_monotone_bounded : forall (w sig : list R) Delta lam0 tol m,
+  length w = length sig -> (forall x, In x w -> 0 <= x) -> (forall x, In x sig -> m <= x) -> 0 < m + lam0 -> 0 < Delta -> 0 <= tol ->
+  let N := fun lam => @pnorm_squared R NumR w (@vshift R NumR lam sig) in
+  Delta <= sqrt (N lam0) ->
+  forall cap,
+  let res := @secular R NumR tol cap 0 w sig Delta lam0 (N lam0) ((sqrt (N lam0) - Delta) / Delta) in
+  lam0 <= fst res /\ Delta <= sqrt (N (fst res)) /\
+  match snd res with
+  | TSecular j => sqrt (N (fst res)) - Delta <= tol * Delta /\ (j <= cap)%nat
+  | TCapped j => tol * Delta < sqrt (N (fst res)) - Delta /\ j = cap /\
+                 INR cap * ((m + lam0) * tol) <= sqrt (@nsum R NumR w) / Delta - (m + lam0)
+  | _ => False
+  end.
+Proof. exact secular_newton_spec. Qed.
+(* hence TERMINATION of the Newton iteration on the secular equation for every tolerance > 0 (the uncapped `while` of the original code
+   included): once the number of passes allowed exceeds (sqrt(sum w)/Delta - (m+lam0)) / ((m+lam0) tol) the loop has left through its
+   tolerance test, with 0 <= |p| - Delta <= tol Delta.  (The bound is linear in 1/tol -- far from the quadratic rate observed, <= 9
+   passes on all sampled inputs -- and with the code's start m + lam0 = eps it does not explain why 100 passes are enough.) *)
+Theorem C06_secular_newton_terminates : forall (w sig : list R) Delta lam0 tol m,
+  length w = length sig -> (forall x, In x w -> 0 <= x) -> (forall x, In x sig -> m <= x) -> 0 < m + lam0 -> 0 < Delta -> 0 < tol ->
+  let N := fun lam => @pnorm_squared R NumR w (@vshift R NumR lam sig) in
+  Delta <= sqrt (N lam0) ->
+  forall cap, sqrt (@nsum R NumR w) / Delta - (m + lam0) < INR cap * ((m + lam0) * tol) ->
+  exists lam' j, @secular R NumR tol cap 0 w sig Delta lam0 (N lam0) ((sqrt (N lam0) - Delta) / Delta) = (lam', TSecular j) /\
+                 (j <= cap)%nat /\ lam0 <= lam' /\ 0 <= sqrt (N lam') - Delta <= tol * Delta.
+Proof. exact secular_newton_terminates. Qed.
+(* ... and an explicit contraction: with the eigenvalues in [m, M], M + lam <= amax, ONE Newton step from the side |p(lam)| >= Delta
+   multiplies the relative radius error bError = (|p| - Delta)/Delta by at most 1 - (m + lam)/amax < 1 and keeps it >= 0
+   (monotone convergence of the error to 0, linear rate at worst the inverse condition number of A + lam I). *)
+Theorem C06_secular_newton_contracts : forall (w sig : list R) lam Delta m amax,
+  length w = length sig -> (forall x, In x w -> 0 <= x) -> (forall x, In x sig -> m <= x) -> 0 < m + lam ->
+  (forall x, In x sig -> x + lam <= amax) -> 0 < Delta ->
+  let N := @pnorm_squared R NumR w (@vshift R NumR lam sig) in let Q := @qnorm_squared R NumR w (@vshift R NumR lam sig) in
+  Delta <= sqrt N ->
+  let be := (sqrt N - Delta) / Delta in
+  let lam' := lam + N / Q * be in
+  let be' := (sqrt (@pnorm_squared R NumR w (@vshift R NumR lam' sig)) - Delta) / Delta in
+  0 <= be' <= (1 - (m + lam) / amax) * be.
+Proof. exact secular_step_contracts. Qed.
+(* formerly NOT PROVED ("treigen.solve returns a global minimiser as one theorem from the eigh contract") and ("termination of the secular
+   loop": over R for every tolerance, and by construction for the capped loop) are closed by the theorems above; findings F2b, F2c are fixed.
+   NOT PROVED: that the tolerance exit is reached within the source's 100 passes (the proved pass bound is linear in 1/tol and the proved
+   contraction factor 1 - 1/cond(A + lam I) is close to 1 at the code's start lam = -sig_0 + eps; the quadratic rate observed is not proved;
+   a capped exit is characterised above, measured never to occur); the eigh contract itself (numpy is an oracle: the harness
+   measures V^T V = I, A = V diag(sig) V^T and the ordering on the logged output of every run); binary64 rounding (the theorems are over R;
+   the harness compares per branch within stated tolerances; the stall exit exists only in binary64: the harness checks on every stalled
+   run that the multiplier reached is admissible -- lam >= 0, sig_0 + lam > 0, the hypotheses of C06_treigen_shifted_step_optimal -- that
+   the step is optimal for its own radius, and that the radius misses Delta by at most 1e-12 + 2 ulp(max(|lam|,|sig_0|))/(sig_0+lam) relative). *)
+(* the two facts behind the repairs, as separate statements:
+   F2b -- A = 0: the model is s.b and -Delta*b/|b| (what the early return yields) minimises it over the ball;
    F2c -- every admissible multiplier (lam >= 0, sig_0 + lam > 0) gives a minimiser over the ball of its own radius, so a secular loop that
           stops on an iteration cap or when the Newton correction no longer changes lam still returns a step that is optimal for the radius reached. *)
 Theorem C06_zero_hessian_linear_minimiser : forall n (b s : list R) Delta, len n b -> len n s -> 0 < Delta -> 0 < b ⋅ b ->
@@ -216,6 +334,17 @@ Example C06_treigen_nonvacuous :
   (forall x, In x sig -> hd 0 sig <= x) /\ 0 < @vmean_abs R NumR sig /\
   @treigen_solve R NumR 1 sig V b 1 = (TSecular 1, [-1]).
 Proof. exact treigen_nonvacuous. Qed.
+
+Example C06_treigen_zero_nonvacuous :
+  let sig := [0] in let V := [[1]] in let b := [2] in
+  let A := fun x : list R => @matvec R NumR V (@vmul R NumR sig (@matvec R NumR (@transpose_n R NumR 1 V) x)) in
+  len 1 sig /\ (forall row, In row V -> len 1 row) /\ length V = 1%nat /\ len 1 b /\
+  (forall y, len 1 y -> @matvec R NumR (@transpose_n R NumR 1 V) (@matvec R NumR V y) = y) /\
+  (forall x, len 1 x -> @matvec R NumR V (@matvec R NumR (@transpose_n R NumR 1 V) x) = x) /\
+  (forall x, len 1 x -> A x = @matvec R NumR V (@vmul R NumR sig (@matvec R NumR (@transpose_n R NumR 1 V) x))) /\
+  (forall x, In x sig -> hd 0 sig <= x) /\
+  @treigen_solve R NumR 100 sig V b 1 = (TZero, [-1]).
+Proof. exact treigen_zero_nonvacuous. Qed.
 
 Example C06_nonvacuous : forall n,
   let Hf := rscale 2 in let Pf := fun v : list R => v in
@@ -249,7 +378,9 @@ Proof. exact gould_nonvacuous. Qed.
 Print Assumptions C06_tau_on_boundary.
 Print Assumptions C06_cg_step_properties.
 Print Assumptions C06_cg_gould_recurrences.
+Print Assumptions C06_subspace_cg_step_properties.
 Print Assumptions C06_dogleg.
 Print Assumptions C06_ms_sufficiency.
 Print Assumptions C06_treigen_hard_case_near_optimal.
 Print Assumptions C06_treigen_global_minimiser.
+Print Assumptions C06_secular_newton_terminates.
